@@ -153,16 +153,17 @@ def run(chk):
     if chk.require("T3 get_info rk", "T3|get_info", gi, AUTH, "Authenticator::get_info not found"):
         chk.touched(gi)
         T = flow.Terms(p, gi)
-        ag = [x for x in find_aggs(gi, "Options") if "rk" in x[2]["fields"]]
-        if chk.require("T3 get_info rk", "T3|options", len(ag) == 1, where(gi), "get_info::Options construction not found"):
+        # the `rk` member of the options in the returned Response (a struct literal, or defaults with members assigned)
+        ag = [x for x in find_aggs(gi, "Response") if "options" in x[2]["fields"]]
+        if chk.require("T3 get_info rk", "T3|options", len(ag) == 1, where(gi), "get_info::Response construction not found"):
             bb, i, rv = ag[0]
-            rk = N.inline(T.operand(rv["ops"][rv["fields"].index("rk")], bb, i))
-            e = flow.eq_test(rk, ("notin", "0"))
+            rk = N.inline(("field", ("payload", T.operand(rv["ops"][rv["fields"].index("options")], bb, i)), "rk"))
+            # rk = "the store's capability is not OnlyNonDiscoverable" (`!=`, `!matches!`, a match with constant arms alike)
+            vb = flow.variant_bool(rk)
             t3_ok = False
-            if e is not None and e[1] is False and len(e[0]) == 2:
-                cap = [x for x in e[0] if isinstance(x, tuple) and len(x) == 3 and x[0] == "field" and x[2] == "discoverability"]
-                lit = [x for x in e[0] if isinstance(x, tuple) and len(x) == 4 and x[0] == "agg" and x[2] == "OnlyNonDiscoverable"]
-                t3_ok = bool(cap) and bool(lit) and has(cap[0], lambda x: is_call(x, "CredentialStore::get_info")) and has(cap[0], lambda x: x == ("field", ("upvar", 0), "store"))
+            if vb is not None and vb[2] is False and vb[1] == "OnlyNonDiscoverable":
+                cap = vb[0]
+                t3_ok = isinstance(cap, tuple) and len(cap) == 3 and cap[0] == "field" and cap[2] == "discoverability" and has(cap, lambda x: is_call(x, "CredentialStore::get_info")) and has(cap, lambda x: x == ("field", ("upvar", 0), "store"))
             chk.ob("T3 get_info rk", "T3|rk", t3_ok, where(gi, bb), "options.rk = %s" % flow.term_str(rk))
 
     # ---------------- R4 / R5
